@@ -1,2 +1,22 @@
-(* C07 *)
-From WaxModel Require Import Base.
+(* C07 -- Branches compose: alternation is union, repetition is iteration, `any` is union. *)
+From WaxModel Require Import Base Token Regex Spec Encode.
+From WaxProofs Require Import EncodeFacts.
+
+(* for all inputs: the program of a combinator matches exactly the union of the programs of its patterns *)
+Theorem C07_any_is_union :
+  forall orbit sp ts w, ts <> [] ->
+    (sem orbit (encode (TAlt sp ts)) w <-> exists t, In t ts /\ sem orbit (encode t) w).
+Proof. exact any_is_union. Qed.
+Print Assumptions C07_any_is_union.
+
+(* an alternation of programs is the union of its branches *)
+Theorem C07_alternation_is_union :
+  forall orbit rs w, rs <> [] -> (sem orbit (ralt_list rs) w <-> exists r, In r rs /\ sem orbit r w).
+Proof. exact sem_ralt_list. Qed.
+Print Assumptions C07_alternation_is_union.
+
+(* whether a token is encoded capturing or not (top level vs. nested in a branch) does not change what it matches *)
+Theorem C07_grouping_irrelevant :
+  forall orbit t cap cap' s e w, sem orbit (enc_tok cap t s e) w <-> sem orbit (enc_tok cap' t s e) w.
+Proof. intros orbit t cap cap' s e w. exact (enc_tok_cap orbit t cap cap' s e w). Qed.
+Print Assumptions C07_grouping_irrelevant.
